@@ -6,9 +6,12 @@
 //!   dmnsim child ... / exec-plan ...      (internal)
 
 mod c17;
+mod c18;
 mod c20;
 mod core;
 mod driver;
+mod http;
+mod jsonval;
 mod models;
 mod rng;
 mod sched;
@@ -22,12 +25,17 @@ use std::time::Duration;
 fn lookup(id: &str) -> Option<&'static dyn Sim> {
   match id {
     "C17" => Some(&c17::C17),
+    "C18" => Some(&c18::C18),
     "C20" => Some(&c20::C20),
     _ => None,
   }
 }
 
-const ALL: [&str; 2] = ["C17", "C20"];
+const ALL: [&str; 3] = ["C17", "C18", "C20"];
+
+/// Process time zones of blocks of runs, as POSIX TZ strings (independent of the zoneinfo files):
+/// UTC, Europe/Warsaw, America/New_York, Australia/Lord_Howe (half-hour DST shift), Pacific/Kiritimati (+14).
+pub const TZS: [&str; 5] = ["UTC0", "CET-1CEST,M3.5.0,M10.5.0/3", "EST5EDT,M3.2.0,M11.1.0", "<+1030>-10:30<+11>-11,M10.1.0,M4.1.0", "<+14>-14"];
 
 fn arg_value(args: &[String], name: &str) -> Option<String> {
   args.iter().position(|a| a == name).and_then(|i| args.get(i + 1)).cloned()
@@ -182,7 +190,13 @@ pub fn debug_facts() {
   for m in &models {
     match dmntk_model::parse(&m.xml) {
       Ok(defs) => match dmntk_model_evaluator::ModelEvaluator::new(&defs) {
-        Ok(me) => println!("{} builds: d={}", m.key, me.evaluate_invocable("d", &dmntk_feel::context::FeelContext::default())),
+        Ok(me) => {
+          println!("{} builds: d={}", m.key, me.evaluate_invocable("d", &dmntk_feel::context::FeelContext::default()));
+          for c in ["{x: true}", "{x: \"a\"}", "{x: 1}", "{x: [1,2]}", "{x: {a: 1}}", "{x: null}"] {
+            let ctx = dmntk_feel_evaluator::evaluate_context(&dmntk_feel::Scope::default(), c).unwrap();
+            println!("   echo {} = {}   tod = {}", c, me.evaluate_invocable("echo", &ctx), me.evaluate_invocable("tod", &ctx));
+          }
+        }
         Err(e) => println!("{} build error: {}", m.key, e),
       },
       Err(e) => println!("{} parse error: {}", m.key, e),
